@@ -327,7 +327,12 @@ func (cmd *mainCmd) Run(args []string) error {
 				errors = append(errors, fmt.Errorf("reformat %q: %w", filename, err))
 				continue
 			}
-
+		} else if _, err := parser.ParseFile(token.NewFileSet(), filename, bs, parser.AllErrors); err != nil {
+			// imports.Process parses what was printed. If it was
+			// skipped, make sure that we don't emit code that isn't
+			// valid Go.
+			errors = append(errors, fmt.Errorf("reformat %q: %w", filename, err))
+			continue
 		}
 
 		switch {
